@@ -207,6 +207,8 @@ def check(run: Run) -> None:
 
     _c08._learn_result_helpers(cm)
     _c08._enum_shape(run, cm, "R13.8")
+    run.rule("R13.9", "every kind -> Python type table of the validation code has the documented rows (STRING str, NUMBER int|float, BOOLEAN bool, LIST list; = C08 R08.9): a sibling table that narrows NUMBER to int makes the chain reject the 2.5 that the grammar's CONST literal generates", 1)
+    _c08._sibling_kind_tables(run, "R13.9")
     run.rule("R13.1", "constant fragments: every text derivable from the BOOLEAN / NUMBER / DATE / ISO8601 fragment is read by the tokenizer model as exactly one token of the kind the constraint accepts (automata inclusion), and its content lies in the constraint's own language", 12)
     run.rule("R13.2", "CONST / ENUM: the text placed in the grammar for a value is produced by the emitter's emit_value (the one place that knows how to spell a value so the reader returns it unchanged) and then escaped for GBNF", 2)
     run.rule("R13.3", "compile_chain picks the rule of the most specific member in the documented order CONST > ENUM > REGEX > TYPE > DATE/ISO8601", 1)
